@@ -15,6 +15,8 @@ BUILT = {
          "trusted: unforgeability of packet protection (ring/rustls or SimCrypto's keyed tag) is assumed; frame accounting needs SimCrypto; timing-level equality is not asserted (extra poll instants legitimately perturb pacing)"),
  "C05": ("simnet", "independent credit ledger kept by the wire observer for the receiver of the credit; every STREAM/RESET_STREAM leaving a sender is checked against stream, connection and stream-count limits that actually reached it; send_window bound via probe",
          "trusted: independent wire decoder (wire.rs); SimCrypto only (frames visible); 0-RTT limits are C17's"),
+ "C06": ("puppet", "a harness-written hostile peer (puppet.rs: own packet/frame codec, SimCrypto keys) completes a handshake with the unmodified endpoint in either role and probes every advertised limit from one below to one above (STREAM/RESET_STREAM ends vs stream and connection limits, stream indices vs MAX_STREAMS, final-size changes, DATAGRAM sizes, out-of-order CRYPTO vs crypto_buffer_size, one-byte drip frames) interleaved with reads/stop/finish/set_receive_window/set_max_concurrent_streams on the victim; a reference model written from RFC 9000 section 4 classifies each frame accept / either / must close with code; read()/recv() content and range oracle; MAX_DATA, MAX_STREAM_DATA, MAX_STREAMS never exceed consumed-or-discarded + configured window; buffer bounds through the probe",
+         "trusted: puppet and wire.rs; limits enforced may exceed the advertised ones by credit held internally (band accepted either way); errors for data beyond a final size learnt from RESET_STREAM or on finished streams are RFC SHOULDs and not demanded; applications only use stream ids learnt through accept()/open()"),
  "C07": ("simnet", "link-side anti-amplification ledger on every datagram any server connection emits (sent_before + 1 <= 3 x received_before until a genuine Handshake packet / PATH_RESPONSE / validated token), driven by handshakes with 0..16 kB server flights, lost and duplicated client flights, Retry, delayed accept, crafted Initials of 1..1500 bytes from spoofed addresses and garbage datagrams; stateless resets strictly smaller than their trigger and rate limited; sub-1200 Initials ignored without state",
          "trusted: ledger credits at least what quinn credits (all datagrams routed to or buffered for the connection); VN/refusal sizes not asserted (not bounded by the statement)"),
  "C08": ("simnet", "connections terminated at a generated instant by close() of either/both applications, a path blackhole, a stateless reset with the exact token, or nothing (idle timeout / keep-alive); exactly-once ConnectionLost with an explained reason, none for a local close, CONNECTION_CLOSE in the first transmit after close(), Drained within 3 PTO exactly once, endpoint forgets the connection and its CIDs, idle-timeout bounds, keep-alive holds",
@@ -71,6 +73,8 @@ m = {
     "engines": [
         {"name": "simnet", "path": "/verif/harness/src/simnet.rs", "serves_properties": [c["property_id"] for c in checks if "simnet" in c["engine"]],
          "kind_free_text": "deterministic network of sans-IO quinn-proto endpoints on a virtual clock; harness crypto (SimCrypto) or rustls; independent wire observer; event-driven application model"},
+        {"name": "puppet", "path": "/verif/harness/src/puppet.rs", "serves_properties": [c["property_id"] for c in checks if c["engine"] == "puppet"],
+         "kind_free_text": "hand-written QUIC peer over the independent codec and SimCrypto key schedule, living at a sink address of the simulated network (pw.rs); the victim is an unmodified quinn endpoint whose application the check operates step by step"},
         {"name": "codec", "path": "/verif/harness/src/checks/c10.rs", "serves_properties": [c["property_id"] for c in checks if c["engine"] == "codec"],
          "kind_free_text": "enumeration and proptest drivers over quinn-proto's encoders/decoders (reached through the verif-hooks codec wrappers) with the independent codec wire.rs as differential reference; cargo-fuzz targets in /verif/fuzz share the same case functions"},
         {"name": "tokens", "path": "/verif/harness/src/checks/c14c.rs", "serves_properties": [c["property_id"] for c in checks if c["engine"] == "tokens"],
